@@ -132,7 +132,10 @@ def unchanged(m, s):
 
 
 def rv(v):
-    r = repr(v)
+    try:
+        r = repr(v)
+    except Exception as exc:    # a message whose state is already broken
+        r = f'<repr failed: {type(exc).__name__}: {exc}; vars={getattr(v, "__dict__", None)!r}>'
     return r if len(r) < 60 else r[:57] + '...'
 
 
@@ -314,6 +317,7 @@ def grid_for_type(ctx, t):
             delattr(m, name)
             ctx.check('attributes cannot be deleted', False, 'delattr:succeeded',
                       {'kind': 'delattr', 'type': t, 'attr': name}, rv(m))
+            m = Message(t)
         except OKEXC:
             ctx.check('attributes cannot be deleted', unchanged(m, s), 'delattr:changed',
                       {'kind': 'delattr', 'type': t, 'attr': name}, rv(m))
